@@ -10,7 +10,7 @@ NOTE = ("Trusted base: the SSA->SMT executor in /verif/engine (validated per run
         "evidence file, and the stubs listed there (logging, reflection, codecs, compressors, ServeMux model).")
 
 claimed = {
- "C01": dict(text="For each enumerated route table and router, every request within the stated byte bounds is decided: the solver proves that no path of Container.Dispatch "
+ "C01": dict(text="For each enumerated route table (34 hand-written core tables plus pairs of templates generated from a grammar: a seeded sample in quick, all 1122 in thorough) and router, every request within the stated byte bounds is decided: the solver proves that no path of Container.Dispatch "
              "invokes a route function for a request the reference admission predicate refuses, that at most one function runs, and that the selected route seen by the "
              "handler is the one that ran. Bounded symbolic model checking is the right level: the property quantifies over all request strings, which only a solver covers.",
              design="5 (C01), 5.0"),
@@ -37,17 +37,17 @@ claimed = {
  "C07": dict(text="Every combination of entry point, container/route encoding switch, outcome kind and provider is executed with a symbolic Accept-Encoding header, payload chunks and pre-set "
              "Content-Encoding; compressors are typestate stubs emitting one token ENC(coding, payload): the solver proves that an encoded response is one complete stream of the coding "
              "named in Content-Encoding whose payload is exactly the bytes written in order, that the coding is the one Accept-Encoding asks for first and that encoding is enabled, and "
-             "that otherwise the body is exactly the raw bytes. That real gzip/zlib streams decode to their input is assumed (checked natively on the replayed witnesses only).", design="5 (C07)"),
+             "that otherwise the body is exactly the raw bytes; also behind an encoding outer container (no double encoding), after an earlier request to a route with its own setting, and with a client whose writes fail (ledger only). That real gzip/zlib streams decode to their input is assumed (checked natively on the replayed witnesses only).", design="5 (C07)"),
  "C10": dict(text="The panic position is a symbolic choice over every position of a generated filter chain (before/after each filter passes on, handler before/after writing); for recovery on/off, "
              "encoding on/off and both entry points the solver proves: recover handler once with the panic value and the active writer, complete decodable body, nothing escapes (or the same "
-             "value propagates when recovery is off), no lock held, compressor ledger clean, and the next request on the same container is served normally.", design="5 (C10)"),
+             "value propagates when recovery is off), no lock held, compressor ledger clean, and the next request on the same container is served normally; positions include a route selection condition and the container filters around a routing error; the default recover handler is covered for escape, completeness and Content-Length.", design="5 (C10)"),
  "C11": dict(text="Explicit histories (<= 4 operations over a menu of 9 root paths, enumerated) build a container; a fresh container is built from the model of its final content; both get the same "
              "symbolic probe request through Dispatch and through ServeHTTP (ServeMux modelled) and must answer identically; Add/Remove must not panic. The inductive formulation of the design was "
              "not built: the claim is bounded by history length.", design="5 (C11)"),
  "C19": dict(text="Per configuration family the same (or a second) symbolic request is served again on the same container and compared with the first answer / a fresh twin; a frame monitor in the "
              "executor classifies every store made while serving by the allocation epoch of its target and reports stores to state that outlives the request; trace on/off must agree; values "
              "handed to one handler are scribbled on and must not reach the next.", design="5 (C19), 2.7"),
- "C12": dict(text="Two threads - one request through Dispatch or ServeHTTP, one of Add/Remove/Route/RemoveRoute - are executed in recording mode (loads/stores of pre-existing objects and RWMutex "
+ "C12": dict(text="Two threads - one request (to the changed service, to another one, or an OPTIONS request through OPTIONSFilter) through Dispatch or ServeHTTP, one of Add/Remove/Route/RemoveRoute - are executed in recording mode (loads/stores of pre-existing objects and RWMutex "
              "operations become events); per pair of conflicting accesses the solver decides over all schedules whether they can be adjacent (data race), and one query decides whether a state "
              "with a thread blocked forever is reachable (incl. a pending writer blocking new readers). Value-level snapshot semantics is not claimed (see level_note).", design="5 (C12), 2.8",
              note="Each thread is executed alone from the pre-mutation state, so its control flow does not react to the other thread's writes; more threads/operations, the Go memory model, scheduler fairness and re-entrant user code are outside the claim."),
@@ -60,7 +60,7 @@ claimed = {
              "the ones received, also after an earlier request on the same container.", design="5 (C06)"),
  "C08": dict(text="CrossOriginResourceSharing.Filter in a real container with symbolic Origin, symbolic allowed-domain entries and predicate string: the solver proves that any Access-Control-* "
              "response header implies the reference 'origin allowed' predicate, that Allow-Origin echoes the Origin once, credentials only if configured, and that requests without or with a "
-             "disallowed Origin are served exactly like on a filter-less twin.", design="5 (C08)"),
+             "disallowed Origin are served exactly like on a filter-less twin; a second harness chains two filters with different configurations.", design="5 (C08)"),
  "C09": dict(text="Symbolic method, requested method and requested header list against configured or computed allowed methods and symbolic allowed headers: the solver proves that a preflight "
              "never reaches a later filter or route, is granted exactly when method and every requested header are allowed, and that actual requests proceed with each header once; an optional "
              "earlier preflight to the other URL must not change the answer.", design="5 (C09)"),
